@@ -104,6 +104,34 @@ def _check_render(res, st, s, case_base):
                 res.violation("C13|formula_to_%s|inverse" % fmt, "undoing the %s presentation of %r (%r) gives %r, not the input" % (fmt, s, got, back), case, back, want)
 
 
+def _check_two_prefixes(res, p1, p2, rest, s):
+    from chempy import Substance
+
+    for fmt in FMTS:
+        res.states += 1
+        res.transitions += 1
+        res.evaluations += 1
+        res.nontrivial += 1
+        exp = F.prefix_render(p1, fmt) + F.prefix_render(p2, fmt) + F.render(rest, fmt)
+        try:
+            got = _fn(fmt)(s)
+        except Exception as e:
+            got = "EXC %s" % type(e).__name__
+        res.outcomes[fmt + ("-two-prefixes-ok" if got == exp else "-two-prefixes-WRONG")] += 1
+        if got != exp:
+            res.violation("C13|formula_to_%s|rendering|two-prefixes" % fmt, "formula_to_%s(%r) = %r, the statement's presentation is %r" % (fmt, s, got, exp),
+                          dict(layer="G2", s=s, p1=p1, p2=p2, fmt=fmt), got, exp)
+    res.evaluations += 1
+    try:
+        sub = Substance.from_formula(s)
+        got = (sub.latex_name, dict(sub.composition))
+    except Exception as e:
+        got = "EXC %s" % type(e).__name__
+    exp = (F.prefix_render(p1, "latex") + F.prefix_render(p2, "latex") + F.render(rest, "latex"), F.composition_of(rest))
+    if got != exp:
+        res.violation("C13|Substance.from_formula|names-composition|two-prefixes", "Substance.from_formula(%r) carries %r, expected %r" % (s, got, exp), dict(layer="G2", s=s, p1=p1, p2=p2, fmt="substance"), got, exp)
+
+
 DEFAULTS = (0, 7, None)  # default_phase_idx: None means "refuse (ValueError) when no phase suffix is found"
 
 
@@ -341,6 +369,17 @@ def run_chunk(chunk, tier):
                 s = F.string_of(st)
                 _check_render(res, st, s, dict(layer="G", s=s))
                 res.symbols[pre] += 1
+        # two prefixes (a greek prefix followed by the radical dot or by another greek prefix): each maps to its symbol, in
+        # the written order
+        core = (("el", "N", ""), ("el", "O", "2"))
+        for i, g in enumerate(F.GREEK):
+            # (chempy strips prefixes in one pass over its table — greek letters in alphabet order, then the radical dot — so
+            # only sequences written in that order are part of the accepted notation; the others are refused, not misread)
+            for second in [".", F.GREEK[i + 5] + "-"] if i + 5 < len(F.GREEK) else ["."]:
+                for chg, suf in ((None, None), ("-", "(aq)")):
+                    rest = (core, None, chg, None, suf, None)
+                    s = g + "-" + second + F.string_of(rest)
+                    _check_two_prefixes(res, g + "-", second, rest, s)
         res.sample(dict(layer="G", s="gamma-FeOOH(s)", latex=F.render((((("el", "Fe", ""),)), None, None, "gamma-", "(s)", None), "latex")))
     elif kind == "HH":
         for i, st in enumerate(F.multi_hydrate_states()):
@@ -389,6 +428,9 @@ def replay(case):
     if case["layer"] == "R":
         subst, names = _rxn_env()
         _check_rxn(res, case["cls"], tuple(case["reac"]), tuple(case["prod"]), tuple(case["coeffs"]), case["order"], subst, names)
+    elif case["layer"] == "G2":
+        sub = run_chunk(("G",), "quick")
+        res.violations = [v for v in sub.violations if v["case"].get("s") == case["s"] and v["case"].get("fmt") == case.get("fmt")]
     elif case["layer"] == "G":
         for g in F.GREEK + ["."]:
             pre = g if g == "." else g + "-"
